@@ -21,7 +21,7 @@ func rangesOverField(fn *ssa.Function, field string) []*ssa.Range {
 				continue
 			}
 			if u, ok := rg.X.(*ssa.UnOp); ok {
-				if fa, ok := u.X.(*ssa.FieldAddr); ok && isNamed(fa.X.Type(), pkgTemplate, "escaper") && fieldName(fa.X.Type(), fa.Field) == field {
+				if fa, ok := u.X.(*ssa.FieldAddr); ok && isHostedIn(fa, pkgTemplate, "escaper") && fieldName(fa.X.Type(), fa.Field) == field {
 					out = append(out, rg)
 				}
 			}
@@ -38,12 +38,85 @@ func freshMapStores(fn *ssa.Function, field string) []*ssa.Store {
 			continue
 		}
 		fa := st.Addr.(*ssa.FieldAddr)
-		if isFreshBase(fa.X, 0) {
+		base, _ := hostedIn(fa, pkgTemplate, "escaper")
+		if isFreshBase(base, 0) {
 			continue
 		}
 		out = append(out, st)
 	}
+	// a sub-struct holding the field replaced as a whole by a value whose field is a fresh map
+	for _, b := range fn.Blocks {
+		for _, in := range b.Instrs {
+			st, ok := in.(*ssa.Store)
+			if !ok {
+				continue
+			}
+			fa, ok := st.Addr.(*ssa.FieldAddr)
+			if !ok {
+				continue
+			}
+			base, ok := hostedIn(fa, pkgTemplate, "escaper")
+			if !ok || isFreshBase(base, 0) {
+				continue
+			}
+			pt, ok := fa.Type().Underlying().(*types.Pointer)
+			if !ok {
+				continue
+			}
+			sst, ok := pt.Elem().Underlying().(*types.Struct)
+			if !ok {
+				continue
+			}
+			idx := -1
+			for i := 0; i < sst.NumFields(); i++ {
+				if fieldName(fa.Type(), i) == field {
+					idx = i
+				}
+			}
+			if idx >= 0 && structFieldIsFreshMap(st.Val, idx, 0) {
+				out = append(out, st)
+			}
+		}
+	}
 	return out
+}
+
+// structFieldIsFreshMap: field #idx of the struct value v is a map made where v is built (a literal here, or the
+// single literal a constructor of the module returns).
+func structFieldIsFreshMap(v ssa.Value, idx int, depth int) bool {
+	if depth > 3 {
+		return false
+	}
+	switch x := v.(type) {
+	case *ssa.UnOp:
+		al, ok := x.X.(*ssa.Alloc)
+		if !ok {
+			return false
+		}
+		n, fresh := 0, false
+		for _, ref := range *al.Referrers() {
+			if fa, ok := ref.(*ssa.FieldAddr); ok && fa.Field == idx {
+				for _, rr := range *fa.Referrers() {
+					if st, ok := rr.(*ssa.Store); ok && st.Addr == ssa.Value(fa) {
+						n++
+						_, fresh = st.Val.(*ssa.MakeMap)
+					}
+				}
+			}
+		}
+		return n == 1 && fresh
+	case *ssa.Call:
+		g := staticCallee(x.Common())
+		if g == nil || g.Blocks == nil || g.Pkg == nil || !strings.HasPrefix(g.Pkg.Pkg.Path(), modulePath) {
+			return false
+		}
+		rets := Returns(g)
+		if len(rets) != 1 || len(rets[0].Results) != 1 {
+			return false
+		}
+		return structFieldIsFreshMap(rets[0].Results[0], idx, depth+1)
+	}
+	return false
 }
 
 // resetsOnAllPaths: the escaper fields that method g replaces by fresh maps on every return path.
@@ -157,7 +230,7 @@ func checkMemoDiscipline(p *Program, r *Report, rule string) {
 				}
 				if bi, ok := c.Common().Value.(*ssa.Builtin); ok && bi.Name() == "delete" {
 					if u, ok := c.Common().Args[0].(*ssa.UnOp); ok {
-						if fa, ok := u.X.(*ssa.FieldAddr); ok && isNamed(fa.X.Type(), pkgTemplate, "escaper") {
+						if fa, ok := u.X.(*ssa.FieldAddr); ok && isHostedIn(fa, pkgTemplate, "escaper") {
 							fld := fieldName(fa.X.Type(), fa.Field)
 							if fld == "output" || fld == "derived" {
 								n++
@@ -206,4 +279,9 @@ func checkMemoDiscipline(p *Program, r *Report, rule string) {
 	if n == 0 {
 		r.Undec(rule, "template#memo-discipline", "", "no escaper installation or edit-map reset found")
 	}
+}
+
+func isHostedIn(fa *ssa.FieldAddr, pkg, typ string) bool {
+	_, ok := hostedIn(fa, pkg, typ)
+	return ok
 }
